@@ -5,7 +5,7 @@ import sys
 
 from .builtins import builtin_commands
 from .containers import CaseInsensitiveDict
-from .deferred import Promise, wait, BaseDeferred, Deferred, SizedDeferred, DeferredCycle, try_compute, Awaiting
+from .deferred import Promise, wait, BaseDeferred, Deferred, SizedDeferred, DeferredCycle, try_compute, Awaiting, zero_terms
 from .devices import open_device
 from .formats import file_formats
 from .metacommand_impl import get_as_int
@@ -364,6 +364,7 @@ class Compiler:
         # manager), start from a clean state instead of inheriting its leftovers.
         try_compute.depth = 0
         del Awaiting.awaiting_stack[:]
+        del zero_terms[:]
 
         link_base = {
             "promise": Promise[int]("LA"),
@@ -388,6 +389,9 @@ class Compiler:
 
         # Resolve all symbols, in case some have not been used
         for _, (_, value) in self.symbols.items():
+            wait(value)
+        # ...and the values that were multiplied by zero
+        for value in zero_terms:
             wait(value)
 
         return base, code
